@@ -6,7 +6,7 @@ SPEC = dict(
     bins=["c14", "c14sbs"],
     props=["C14/Props.v", "C14/SbsProps.v"],
     coq_dir="C14",
-    coq_targets=["C14/Proofs.vo", "C14/SetObs.vo", "C14/SetAfter.vo", "C14/SetDom.vo", "C14/SetRange.vo", "C14/SetRangeU.vo", "C14/SetEq.vo", "C14/SetOrd.vo", "C14/SetL0.vo", "C14/Examples.vo",
+    coq_targets=["C14/Proofs.vo", "C14/SetObs.vo", "C14/SetAfter.vo", "C14/SetDom.vo", "C14/SetRange.vo", "C14/SetRangeU.vo", "C14/SetEq.vo", "C14/SetOrd.vo", "C14/SetL0.vo", "C14/SetL0Proofs.vo", "C14/Examples.vo",
                  "C14/SbsProofs.vo", "C14/SbsSpec.vo", "C14/SbsRoundtrip.vo", "C14/SbsExamples.vo"],
     allowed_axioms=[],
     level_text=("Unbounded Coq theorems about an executable model of read-fonts' IntSet / BitSet / BitPage and RangeSet. For EVERY sequence of "
@@ -20,6 +20,9 @@ SPEC = dict(
                 "intersects_set = non-emptiness of the meet, == iff same members (same-mode and mixed-mode paths), cmp = lexicographic "
                 "order of the member sequences. RangeSet (unbounded): after any insert sequence the ranges are sorted, disjoint, "
                 "non-adjacent and cover exactly the union of the inserted ranges; intersection = canonical form of the pointwise meet. "
+                "L0: an index-by-index model of the in-place BitSet::process (pages vector + page_map; estimate, compact, resize, "
+                "back-to-front merge, drains) refines the L1 merge: proved unbounded for steps 3-4 from any prepared state (all operators) "
+                "and end to end for union/subtract; for intersect/reversed_subtract end to end only over a complete finite domain (bounded). "
                 "The model is tied to the code on every run: the Rust harness drives the real "
                 "IntSet/RangeSet through the public API (bounded-exhaustive short sequences over the page-edge-rich 11-value domain, random "
                 "long sequences over u32/u16/u8 and custom domains) and coqc evaluates the model on the same sequences, comparing a full "
@@ -27,20 +30,24 @@ SPEC = dict(
                 "==, cmp, returned bools); an independent BTreeSet shadow checks the same observations, hash agreement and "
                 "discontinuous domains on the implementation alone. Sparse-bit-set codec: see the Sbs theorems."),
     level_note=("Trusted: Coq kernel; the hand-written model coq/C14/Model.v (agreement with read-fonts is checked on every run, not proved); "
-                "layer L0 (pages vector + page_map indices, the in-place BitSet::process, BitSetBuilder's page cache, binary searches, the "
-                "per-u64-element loops of BitPage) is tied to the model by the correspondence check only. "
+                "the L0 model of BitSet::process (coq/C14/SetL0.v) is not observable through the public API: it is tied to the code by reading "
+                "and to L1 by the refinement theorems (partial, see not_covered), L1 being tied by the correspondence check; the rest of L0 "
+                "(BitSetBuilder's page cache, binary searches, the per-u64-element loops of BitPage, range-iterator state machines) is tied "
+                "by the correspondence check only. Indexing in the L0 model is totalised: index panics are not modelled at that layer. "
                 "Tested only (shadow oracle on the implementation): Hash agreement, discontinuous domains, mixed-direction iteration."),
     technique="Coq proof (N bit lemmas, sorted association lists, induction over operation sequences) over hand-written Gallina model + vm_compute correspondence with read-fonts through the public API",
     modelled=["read-fonts/src/collections/int_set/{sparse_bit_set.rs, input_bit_stream.rs, output_bit_stream.rs}: decoder (BFS, filled nodes, bias/max, early break, skip_nodes), encoder per branch factor, to_sparse_bit_set, bit streams; plus an independent transcription of the IFT specification's decoding algorithm (spec_decode)",
               "read-fonts/src/collections/int_set/bitpage.rs: BitPage insert/remove/contains/insert_range/remove_range/len/iter/iter_after/iter_ranges, union/intersect/subtract (as one 512-bit integer)",
               "read-fonts/src/collections/int_set/bitset.rs: BitSet insert/remove/insert_range/remove_range/remove_all/extend/extend_unsorted/contains/len/clear/iter/iter_after/iter_ranges/process(union,intersect,subtract,reversed_subtract)/Eq/Ord (sorted major->page list + cached length)",
               "read-fonts/src/collections/int_set/mod.rs: Membership, IntSet insert/remove/insert_range/remove_range/extend/extend_unsorted/remove_all/union/intersect/subtract/invert/clear/contains/len/is_empty/iter/iter_after/iter_ranges/iter_excluded_ranges/first/last/intersects_range/intersects_set/Eq/Ord/is_inverted for continuous domains",
-              "read-fonts/src/collections/range_set.rs: RangeSet insert/extend/FromIterator/iter/intersection, OrdAdjacency for u32/u16"],
+              "read-fonts/src/collections/range_set.rs: RangeSet insert/extend/FromIterator/iter/intersection, OrdAdjacency for u32/u16",
+              "read-fonts/src/collections/int_set/bitset.rs (L0): process (steps 1-4), compact, compact_pages, resize, passthrough_behavior over (pages, page_map) — coq/C14/SetL0.v"],
     not_covered=["sparse-bit-set general round trip: proved for all 4096 subsets of [0,12) x 4 branch factors + auto (complete enumeration), tested beyond; the three remaining proof steps are listed in coq/C14/SbsRoundtrip.v",
                  "sparse-bit-set decoder theorems (totality, equivalence with spec_decode) assume input length <= 2^27 bytes",
                  "discontinuous Domain implementations (Even, TwoIntervals in the harness): implementation-only BTreeSet shadow oracle, not in the Coq model",
                  "Hash (equal sets hash equally; rebuild in the same/opposite mode hashes equally), mixed-direction iteration on one iterator, inclusive_iter, RangeSet<u16>: implementation-only oracle",
-                 "L0 (pages vector + page_map indices, in-place process, binary searches): correspondence only",
+                 "process_L0_refines_L1 is partial: unbounded for steps 3-4 (all operators) and end to end for passthrough_left operators (union, subtract); for intersect / reversed_subtract the step-1 front compaction and compact() are covered only by the bounded-exhaustive theorem (all states over 3 majors); Inv0 preservation by process0 not proved",
+                 "other L0 details (BitSetBuilder cache, binary searches, per-element loops of BitPage, RangeIter state machines): correspondence only",
                  "serde impls, Display/Debug, sparse-bit-set codec (other half of C14)"],
     assumptions=["element domain is continuous [0, dmax] with dmax < 2^32 (u32, u16, u8, GlyphId, GlyphId16, Tag, NameId and custom continuous domains)",
                  "operation arguments lie in the domain (the Rust types guarantee it)"],
